@@ -15,6 +15,10 @@ macro_rules! backend_mod {
             pub const BE_NAME: &str = $name;
             pub const IS_FFT64: bool = $fft;
             include!("hal_common.rs");
+            pub mod c07 {
+                use super::*;
+                include!("props/c07.rs");
+            }
             pub mod c08 {
                 use super::*;
                 include!("props/c08.rs");
@@ -69,6 +73,7 @@ fn main() {
     let mut rep = Report::new(&cfg.prop);
     let t0 = std::time::Instant::now();
     match cfg.prop.as_str() {
+        "c07" => on_backends!(&cfg, &mut rep, c07),
         "c08" => on_backends!(&cfg, &mut rep, c08),
         "c09" => on_backends!(&cfg, &mut rep, c09),
         other => {
